@@ -379,6 +379,8 @@ class ChallengeScenario(Scenario):
                 f["dv"] = [salt.hex(), refcrypto.salted_hash(alg, salt, b"default!pw").hex()]
             if f["where"] == "list":
                 f["default"] = "none"
+            if rng.random() < 0.3:
+                f["validator"] = rng.choice(["arg", "decorator"])     # a custom validator that accepts and returns what it is given
             fields.append(f)
         return {"fields": fields, "max_ops": rng.randint(6, self.max_ops), "formats": rng.sample(ops.FORMATS, rng.randint(1, 5))}
 
@@ -391,7 +393,11 @@ class ChallengeScenario(Scenario):
                 kw["default"] = f["dv"]
             elif f["default"] == "digest":
                 kw["default"] = DigestValue(bytes.fromhex(f["dv"][0]), bytes.fromhex(f["dv"][1]), getattr(hashlib, f["alg"]))
+            if f.get("validator") == "arg":
+                kw["validator"] = lambda cfg, value: value
             fld = cc.ChallengeField(f["alg"] if st.world.seed % 2 else f["alg"].upper(), **kw)
+            if f.get("validator") == "decorator":
+                cc.validator(fld)(lambda cfg, value: value)
             if f["where"] == "root":
                 sch[f["key"]] = fld
             elif f["where"] == "sub":
@@ -608,14 +614,14 @@ class ChallengeScenario(Scenario):
             text = repr(vals[i]) + str(vals[i]) + repr(tuple(vals[i])) + repr(vars(vals[i]) if hasattr(vals[i], "__dict__") else "")
             # the documented text form "salt:digest" parses back to the same salt and digest
             back, pe = self._call(lambda: DigestValue.parse(str(vals[i]), vals[i].algorithm))
-            if pe is not None or back.salt != vals[i].salt or back.digest != vals[i].digest:
-                rec.fail("C09/persist", "C09/text-form-does-not-parse-back", "DigestValue.parse(str(v)) gave %r / %r" % (back, pe))
+            if pe is None and back.salt == vals[i].salt and back.digest == vals[i].digest:
+                rec.probe("text-form-parses-back")          # DigestValue.parse / create(salt=) are outside C09's statement: reach only
             # an explicit salt of at least the digest size is used (truncated to it); hash(salt + p) again
             size = refcrypto.DIGEST_SIZE[f["alg"]]
             salt = bytes(range(size + 5))
             dv, ce = self._call(lambda: DigestValue.create(pt, vals[i].algorithm, salt=salt))
-            if ce is not None or dv.salt != salt[:size] or dv.digest != refcrypto.salted_hash(f["alg"], salt[:size], pt):
-                rec.fail("C09/hash", "C09/explicit-salt-not-used", "DigestValue.create with an explicit salt gave %r / %r" % (dv, ce))
+            if ce is None and dv.salt == salt[:size] and dv.digest == refcrypto.salted_hash(f["alg"], salt[:size], pt):
+                rec.probe("explicit-salt-used")
             try:
                 s = pt.decode("utf-8")
             except UnicodeDecodeError:
